@@ -20,7 +20,9 @@ def input_strategy(flat=False, w1=2, w2=2, w3=3, max_stmts=25):
     s1 = st.fixed_dictionaries({"stratum": st.just(1), "prog": gen_prog.programs(flat=flat, max_stmts=max_stmts), "gaps": _gaps, "name_table": st.booleans()})
     s2 = st.fixed_dictionaries({"stratum": st.just(2), "prog": gen_prog.programs(max_stmts=max_stmts), "gaps": _gaps, "relayout": st.lists(st.integers(0, 1000), min_size=3, max_size=9), "name_table": st.booleans()})
     s3 = gen_ssb.free_graphs()
-    return st.one_of([s1] * w1 + [s2] * w2 + [s3] * w3)
+    from vf.core import weighted
+
+    return weighted((w1, s1), (w2, s2), (w3, s3))
 
 
 def materialise(case, stt):
